@@ -356,7 +356,7 @@ def run(R):
             tiny.append({"dt": dt, "C": 1, "shape": list(shape), "blk": list(blk),
                          "values": [rng.choice([0, 1, 2 ** dt_bits(dt) - 1]) for _ in range(n)], "pool": 3})
     check_cases(R, tiny, kind="tiny")
-    n = 700 if quick else 12000
+    n = 700 if quick else 4000
     step = 140
     for i in range(0, n, step):
         check_cases(R, [gen_case(rng, quick) for _ in range(min(step, n - i))])
